@@ -2,6 +2,7 @@ package dsim
 
 import (
 	"context"
+	"errors"
 	"fmt"
 	"sort"
 	"time"
@@ -103,6 +104,10 @@ func runC19(s *Sim) {
 	rrTicks := 0
 	lastTick := s.Now()
 	var lastReadFrom transport.TransportID
+	memberFaults := 0
+	if nMem > 1 && t.Bool("member-faults", 1, 4) {
+		memberFaults = 1
+	}
 	for step := 0; step < steps; step++ {
 		var acts []Action
 		for ti := 0; ti < nWriters; ti++ {
@@ -156,6 +161,28 @@ func runC19(s *Sim) {
 				lastReadFrom = id
 			}
 		}})
+		if memberFaults > 0 {
+			acts = append(acts, Action{Name: "member-read-fault", W: 1, Do: func() {
+				// one member's connection breaks; what the others deliver is still returned exactly once
+				var alive []transport.TransportID
+				for _, id := range ids {
+					s.mu.Lock()
+					ok := !mem[id].failed
+					s.mu.Unlock()
+					if ok {
+						alive = append(alive, id)
+					}
+				}
+				if len(alive) < 2 {
+					return
+				}
+				memberFaults--
+				id := alive[t.Choose("fault-member", len(alive))]
+				mem[id].failRead(errors.New("dsim: connection reset"))
+				s.Stat("fault.member-read-error")
+				s.Logf("fault: member %q read error", id)
+			}})
+		}
 		if mode == "event" {
 			acts = append(acts, Action{Name: "select", W: 5, Do: func() {
 				var id transport.TransportID
@@ -269,6 +296,17 @@ func runC19(s *Sim) {
 		if tk.busy != nil && tk.busy.Name != "Read" {
 			s.Violate("C19.call-blocks", tk.busy.Name, "%s did not return", tk.busy.Name)
 		}
+	}
+	if t.Bool("member-close-errors", 1, 3) {
+		// closing a member tears it down but may report an error (e.g. the close frame could not be
+		// sent): the other members are closed all the same
+		s.mu.Lock()
+		for _, id := range ids {
+			if t.Bool("close-err-this", 1, 2) {
+				mem[id].closeErr = errors.New("dsim: close frame could not be sent")
+			}
+		}
+		s.mu.Unlock()
 	}
 	if s.Idle(ctlT) {
 		cl := &Op{Name: "Close", Run: func(ctx context.Context) (any, error) { return nil, tr.Close() }}
